@@ -1215,6 +1215,10 @@ impl Vault {
             return Ok(());
         }
 
+        // Expired TTL grants must never authorise anything: drop them before
+        // consulting the graph (previously only get/list/batch_get did this).
+        self.cleanup_expired_grants();
+
         let secret_node = self.secret_node_key(key);
 
         if AccessController::check_path_with_permission_verified(
@@ -1241,6 +1245,7 @@ impl Vault {
         if requester == Self::ROOT {
             return true;
         }
+        self.cleanup_expired_grants();
 
         let secret_node = self.secret_node_key(key);
         AccessController::get_permission_level_verified(
@@ -1272,6 +1277,7 @@ impl Vault {
         if requester == Self::ROOT {
             return Some(Permission::Admin);
         }
+        self.cleanup_expired_grants();
 
         let secret_node = self.secret_node_key(key);
         AccessController::get_permission_level_verified(
